@@ -24,7 +24,7 @@ Fixpoint list_eqb (l m : list Z) : bool :=
 
 Definition out_eqb (a b : out) : bool :=
   match a, b with
-  | OUnit, OUnit | OEnd, OEnd | OPanic, OPanic => true
+  | OUnit, OUnit | OEnd, OEnd | OPanic, OPanic | OBad, OBad => true
   | OVal x, OVal y => x =? y
   | OInt x, OInt y => x =? y
   | OBool x, OBool y => Bool.eqb x y
